@@ -320,7 +320,7 @@ def check(fx, rep, tier):
     )
 
     # ---------------------------------------------------------------- R03.6
-    rows = {r[0]: r for r in tables.read("loops.tsv")}
+    rows = tables.Keyed("loops.tsv", fx)
     entries = [b["def"] for b in fx.fn_bodies() if (b.get("impl_self") or "").startswith("extractor::Extractor<") and b.get("name") == "analyze"]
     pipeline = cg.reachable(entries)
     n_loops = 0
